@@ -163,7 +163,27 @@ def find_term(t, op):
   return None
 
 
-def relational(cls_path, weights, extra_attrs=None, call_args=None, bias_flag="use_bias", extra_check=None):
+def stock_source(path, clsname, methods):
+  """Source of the named methods of a stock Keras class (tf_keras 2.x, the implementation qkeras' recurrent cells were
+  derived from), wrapped in a class the interpreter can execute: the statement's 'stock layer' made executable."""
+  import ast as _ast
+  import textwrap
+  src = open(path).read()
+  tree = _ast.parse(src)
+  out = ["import tensorflow as tf", "import tensorflow.keras.backend as backend", "", "class Stock(object):"]
+  for node in tree.body:
+    if isinstance(node, _ast.ClassDef) and node.name == clsname:
+      for m in node.body:
+        if isinstance(m, _ast.FunctionDef) and m.name in methods:
+          seg = _ast.get_source_segment(src, m)
+          out.append(textwrap.indent(textwrap.dedent(" " * m.col_offset + seg), "  "))
+  return "\n".join(out) + "\n"
+
+
+TF_KERAS = "/venv/lib/python3.12/site-packages/tf_keras/src/layers/rnn/"
+
+
+def relational(cls_path, weights, extra_attrs=None, call_args=None, bias_flag="use_bias", extra_check=None, stock=None):
   """call(weights w, quantizers present) == call(weights q(w), no quantizers): the layer with quantizers computes what
   the same layer computes on pre-quantized weights (the quantizer-free body is the stock Keras computation, K1')."""
   def make(pattern):
@@ -231,6 +251,23 @@ def relational(cls_path, weights, extra_attrs=None, call_args=None, bias_flag="u
       if extra_check is not None:
         for cname, ok in extra_check(res[0]):
           s.claim(cname, bool(ok))
+      if stock is not None:
+        # the stock Keras cell (its own source, executed by the same interpreter) on the pre-quantized weights and states
+        fname, sclass, methods = stock
+        sm = ip.load_source("stock_" + sclass, stock_source(TF_KERAS + fname, sclass, methods))
+        ref = build(False)
+        so = Obj(sm.env.vars["Stock"], dict(ref.attrs), label="stock " + sclass)
+        args = call_args(ip, False, pattern) if call_args else [X]
+        rs = run_call(ip, ip.getattr(so, "call"), args)
+        if rs[0] != "return":
+          s.info["raised"] = "stock %s.call: %s" % (sclass, rs[1])
+          s.claim("same_as_stock_layer", False)
+        else:
+          st = commute(rs[1])
+          eq = repr(st) == repr(res[0])
+          if not eq:
+            s.info["raised"] = "term mismatch: quantized cell %r / stock cell on pre-quantized weights %r" % (res[0], st)
+          s.claim("same_as_stock_layer", eq)
       # the quantizers are really used: with a quantizer present the result must mention it
       if any(pattern["q"][i] for i in range(len(weights)) if weights[i][0] != "bias" or pattern["use_bias"]):
         s.claim("quantizer_applied", any(qn in repr(res[0]) for (wn, qn), pr in zip(weights, pattern["q"]) if pr))
@@ -350,7 +387,9 @@ def cases(tier):
             continue                      # the cells always apply their activation
           if not p["use_bias"] and p["q"][2]:
             continue
-          mk = relational("qkeras/qrecurrent.py::" + cname, cell_w, extra_attrs=cell_attrs, call_args=cell_args(nst))
+          stock = ("lstm.py", "LSTMCell", ("call", "_compute_carry_and_output", "_compute_carry_and_output_fused")) \
+              if cname == "QLSTMCell" else ("gru.py", "GRUCell", ("call",))
+          mk = relational("qkeras/qrecurrent.py::" + cname, cell_w, extra_attrs=cell_attrs, call_args=cell_args(nst), stock=stock)
           nm = "impl%d%s_%s" % (impl, "" if reset_after is None else "_ra%d" % reset_after, pname(p))
           out.append(Case(PROP, "qkeras/qrecurrent.py::%s.call" % cname, nm, mk(p), replay_kind=None,
                           assumptions=ASSUME, term_mode=True))
